@@ -70,7 +70,7 @@ def parse_out(line):
 class Check(DiffCheck):
     id = 'C07'
     coq_dirs = ['Base', 'E3', 'C07']
-    coq_targets = ['C07/C07_Arith.vo', 'C07/C07_Lists.vo', 'C07/C07_SPSC_Proofs.vo', 'C07/C07_MPMC_Proofs.vo', 'C07/C07_Chan_Proofs.vo', 'C07/C07_Proofs.vo']
+    coq_targets = ['C07/C07_Arith.vo', 'C07/C07_Lists.vo', 'C07/C07_SPSC_Proofs.vo', 'C07/C07_MPMC_Proofs.vo', 'C07/C07_Chan_Proofs.vo', 'C07/C07_Chan_Inv.vo', 'C07/C07_Chan_InvS.vo', 'C07/C07_Proofs.vo']
     properties_v = 'C07/C07_Properties.v'
     extract_v = 'C07/C07_Extract.v'
     runner_ml = 'ocaml/C07_run.ml'
